@@ -21,7 +21,9 @@ Bytes == 0..255
 Group(n, t) == IF Twin THEN {b \in Bytes : b % t = n} ELSE {b \in Bytes : b % t = n - 1}
 ASSUME \A t \in 1..MaxT :
           LET S == [n \in 1..t |-> Group(n, t)] IN
-          Partition(S, Bytes) /\ (Twin \/ \A n \in 1..t : S[n] # {})
+          /\ PartitionFast(S, Bytes)
+          /\ (t <= 24 => Partition(S, Bytes))
+          /\ (Twin \/ \A n \in 1..t : S[n] # {})
 
 VARIABLE x
 Init == x = 0
